@@ -13,6 +13,11 @@ import "math/big"
 // access to package-level or shareable state.
 var VerifAccess func(obj interface{}, loc string, write bool)
 
+// VerifReset, when non-nil (generated instrumentation sets it), re-runs the
+// package-level variable initialisers so that every explored execution starts
+// from the state a fresh process would have.
+var VerifReset func()
+
 func VerifUintLen(v uint64) uint64                     { return uintLen(v) }
 func VerifAppendUint(b []byte, v uint64) []byte        { return appendUint(b, v) }
 func VerifIntLen(v int64) uint64                       { return intLen(v) }
